@@ -23,7 +23,7 @@ MANIFEST = {
              'C15_axis0_is_per_column, C15_noncomposable_is_per_row, C15_values_are_the_columns (consolidation keeps every column); '
              'C15_table_composable_sound / C15_table_unity_sound against the regenerated table (declaring mean composable breaks the proof with no input); '
              'C15_skipna_ignores_missing / _all_missing / C15_noskip_propagates_or_rejects; C15_argminmax_refinement + C15_argminmax_first_extreme (first position of the extreme value) + C15_loc_is_label_at_iloc; '
-             'C15_cum_keeps_shape / C15_cum_refinement; C15_layout_independent. Refuted/C15.v: four vm_compute witnesses where the faithful M leaves S (known findings). '
+             'C15_cum_keeps_shape / C15_cum_refinement; C15_layout_independent. Refuted/C15.v: three vm_compute witnesses where the faithful M leaves S (known findings). '
              'Correspondence: public Frame calls (every function x axis x skipna x ddof, every block layout of every int/float/bool kind tuple up to width 2 plus six tuples of width 3 (quick) / up to width 3 plus ten tuples of width 4 (thorough), '
              '0- and 1-sized axes, random wider frames, labels of the result), TypeBlocks.ufunc_axis_skipna called directly with the flag combinations container.py never passes, '
              'Series and Index reductions against the one-line spec, string / datetime frames against their per-line Series, all evaluated inside Coq by vm_compute (M and S) on the observed inputs.'),
@@ -34,7 +34,7 @@ MANIFEST = {
              'Partial: object-dtype columns (None / mixed Python objects) are not generated; complex, timedelta, float32/int32 widths not generated; string and datetime columns are checked on the '
              'Python side (frame vs its own per-line Series) and are not in the Coq model; overflow of int64 excluded by construction (|values| <= 8). '
              'M does not describe NumPy reductions over object arrays (rows mixing bool with numbers) nor uninitialised memory: those input classes are excluded from the M comparison by m_faithful and '
-             'are known findings against S. Nine input classes violate the property on the unchanged tree (known/C15.jsonl).'),
+             'are known findings against S. Eight input classes violate the property on the current tree (known/C15.jsonl); the multi-block all-bool sum is repaired (c69b2b9) and kept as a regression stratum.'),
     'technique': 'refinement of the block-wise reduction algorithm to the per-line specification (Coq) + differential runs evaluated inside Coq + regenerated decision table',
 }
 PROPERTY_FILES = ['Properties/C15.v']
@@ -53,6 +53,7 @@ ASSUMPTIONS = ['a NumPy reduction of ONE array along an axis computes the mathem
 TRUSTED = ['tools/sfv/props/c15.py:generate -- AST extractor of the keyword constants of ContainerOperand reductions (fails closed on any other shape)']
 EXHAUSTIVE = {'quick': False, 'thorough': False}
 TRANSLATED = []
+GENERATED_FILES = ['Gen/Gen_c15_table.v']
 
 FUNCS = ('sum', 'prod', 'min', 'max', 'mean', 'median', 'std', 'var', 'all', 'any')
 COQ_F = {f: 'F' + f for f in FUNCS}
@@ -191,7 +192,6 @@ def _j(v):
 F_ZERO_COLS = 'C15-zero-columns'
 F_ONE_ROW = 'C15-one-row-unity'
 F_ZERO_ROWS_LOGICAL = 'C15-zero-rows-logical'
-F_BOOL_SUM = 'C15-bool-blocks-sum'
 F_OBJROW = 'C15-object-rows'
 F_ARG_ALLNAN = 'C15-argminmax-all-nan'
 UNITY = ('sum', 'prod', 'min', 'max', 'mean', 'median')
@@ -215,10 +215,8 @@ def classify_reduce(cols, layout, r, fn, axis, skipna):
     if r == 0 and fn in ('all', 'any') and (axis == 1 or not multi or any(is2d for _, is2d in layout)):
         return F_ZERO_ROWS_LOGICAL      # (axis 0 over 1-D blocks only goes through the scalar path and is right)
     if (multi and axis == 0 and not skipna and fn in UNITY and r == 1 and any(w == 1 for w, _ in layout)
-            and not (rk == 'b' and fn in ('sum', 'prod', 'min', 'max'))):      # a bool `out` accepts the size-1 array
+            and not (rk == 'b' and fn in ('prod', 'min', 'max'))):      # a bool `out` accepts the size-1 array (sum counts into int)
         return F_ONE_ROW
-    if multi and axis == 0 and rk == 'b' and fn == 'sum':
-        return F_BOOL_SUM
     if multi and rk == 'O' and (fn in ('min', 'max') or (axis == 1 and fn in ('std', 'median', 'var', 'mean')) or (r == 0 and fn in ('sum', 'prod'))):
         return F_OBJROW
     return None
@@ -539,8 +537,11 @@ def api_malformed(ctx):
 def known_witnesses(ctx):
     """one fixed input per known finding, so that every listed finding is re-observed on every run"""
     idx2, col2 = [10, 11], [20, 21]
+    # regression (fixed by c69b2b9): the sum of bool columns is a count (2 and 1) in EVERY layout
     b2 = [np.array([True, True]), np.array([True, False])]
-    yield _reduce_case(ctx, b2, ((1, False), (1, False)), 'sum', 0, True, 0, idx2, col2, 'api:known-witness')
+    for layout in zoo.layouts_for([c.dtype for c in b2]):
+        for skipna in (True, False):
+            yield _reduce_case(ctx, b2, layout, 'sum', 0, skipna, 0, idx2, col2, 'api:regression-bool-blocks-sum')
     yield _reduce_case(ctx, [np.array([1], dtype=np.int64), np.array([2.5])], ((1, False), (1, False)), 'sum', 0, False, 0, [10], col2, 'api:known-witness')
     yield _reduce_case(ctx, [], (), 'sum', 0, True, 0, [10, 11, 12], [], 'api:known-witness')
     yield _reduce_case(ctx, [np.array([], dtype=np.int64), np.array([], dtype=np.int64)], ((2, True),), 'all', 0, True, 0, [], col2, 'api:known-witness')
